@@ -223,6 +223,30 @@ func mutateJSON(r *Rng, body string) string {
 	}
 }
 
+// bodyDemandsLong: the (possibly damaged) body still decodes to a request that itself asks for at least as many
+// iterations as the watchdog allows (minIterations or, without it, checkFreq >= 1000, and no smaller maxIterations).
+func bodyDemandsLong(body string) bool {
+	var m map[string]json.RawMessage
+	if json.Unmarshal([]byte(strings.TrimPrefix(body, "\xef\xbb\xbf")), &m) != nil {
+		return false
+	}
+	num := func(k string) (float64, bool) {
+		var f float64
+		if raw, ok := m[k]; ok && json.Unmarshal(raw, &f) == nil {
+			return f, true
+		}
+		return 0, false
+	}
+	if mx, ok := num("maxIterations"); ok && mx > 0 && mx < 1000 {
+		return false
+	}
+	if mn, ok := num("minIterations"); ok {
+		return mn >= 1000
+	}
+	fq, ok := num("checkFreq")
+	return ok && fq >= 1000
+}
+
 func advIdx(r *Rng, n int) string {
 	switch r.Intn(13) {
 	case 0:
@@ -352,6 +376,14 @@ func genC15(r *Rng, tier string) []*Case {
 				if r.Chance(30) {
 					o.Max = uint32(r.Intn(12))
 				}
+				if r.Chance(35) {
+					// every referenced collection exists except (possibly) the positive-only target
+					h.Ops = append(h.Ops, GOp{Op: "mcreate", ID: o.ID}, GOp{Op: "vcreate", ID: o.Global})
+					if o.Pre != nil {
+						h.Ops = append(h.Ops, GOp{Op: "vcreate", ID: *o.Pre})
+					}
+					o.Positive = ip(3 + r.Intn(2)) // ids 3, 4 are never created
+				}
 				h.Ops = append(h.Ops, o)
 			}
 		}
@@ -480,7 +512,7 @@ func runC15(c *Case) error {
 			js = json.Valid([]byte(r1.Body))
 		}
 		c.setObs(map[string]interface{}{"resp": r1, "store_same": same, "json": js})
-		c.coq = fmt.Sprintf("ORaw %d %d %s %s %s %s %s", in.Endpoint, r1.Code, cBool(js), cBool(r1.Panic != ""), cBool(r1.Hang), cBool(same), cBool(hasHugeNumber(in.Body)))
+		c.coq = fmt.Sprintf("ORaw %d %d %s %s %s %s %s %s", in.Endpoint, r1.Code, cBool(js), cBool(r1.Panic != ""), cBool(r1.Hang), cBool(same), cBool(hasHugeNumber(in.Body)), cBool(bodyDemandsLong(in.Body)))
 		c.Nontrivial = true
 		c.Tags = []string{fmt.Sprintf("oraw:ep%d:%d", in.Endpoint, r1.Code)}
 		if r1.Hang && strings.Contains(in.Body, "epsilon") {
